@@ -120,6 +120,11 @@ theorem C13_gen_install_guard :
       ["simulator/system/core/software_manager.py:install:self._software_class_to_name_map[software_class] = software.name"] ∧
     Gen.Software.uninstallPopsClassMapEntry = true ∧ Gen.Software.uninstallPopsPortEntryOfOwner = true := by decide
 
+/-- a PortScanPayload goes to `software["nmap"]` if there is one and is dropped otherwise (`Node.receivers`); the constructor
+loads the fixing countdown of software configured FIXING (`Soft.configured`) -/
+theorem C13_gen_delivery_and_ctor :
+    Gen.Software.portScanDelivery = "nmap-if-installed" ∧ Gen.Software.ctorLoadsFixingCountdown = true := by decide
+
 /-- order of the steps of `SoftwareManager.install` (the installed instance of the name is evicted before any registry
 write — `Node.evict`), and the shape of `get_open_ports` -/
 theorem C13_gen_install_order :
@@ -427,12 +432,12 @@ theorem evict_heap (n n1 : Node) (name : String) (h : n.evict name = some n1) :
 
 /-- the object `SoftwareManager.install` constructs for a service class -/
 def newSvc (n : Node) (c : Cls) (l : List Nat) (hl : Health) (f : Int) : SvcInst :=
-  { m := { uid := n.next, cls := c, listen := l }, s := ((({ sw := { actual := hl, fixDur := f } } : Svc).start n.isOn).1) }
+  { m := { uid := n.next, cls := c, listen := l }, s := ((({ sw := Soft.configured hl f } : Svc).start n.isOn).1) }
 
 def newApp (n : Node) (c : Cls) (l : List Nat) (hl : Health) (f : Int) : AppInst :=
   { m := { uid := n.next, cls := c, listen := l },
-    a := (if c.ctorRuns then ({ sw := { actual := hl, fixDur := f } } : App).run n.isOn
-          else ({ sw := { actual := hl, fixDur := f } } : App)).applyAll [.install, .forceClosed] }
+    a := (if c.ctorRuns then ({ sw := Soft.configured hl f } : App).run n.isOn
+          else ({ sw := Soft.configured hl f } : App)).applyAll [.install, .forceClosed] }
 
 /-- an install never touches an existing object: the heap is unchanged (refused) or gets the new object appended -/
 theorem installSvc_heap (n n' : Node) (c : Cls) (cfg : Bool) (l : List Nat) (hl : Health) (f : Int)
@@ -1478,12 +1483,6 @@ theorem app_tickOk_applyAll (evs : List AppEv) (a : App) (h : a.tickOk = true) :
 /-- every object on the node could be ticked without `TypeError` -/
 def WellTimed (n : Node) : Prop := (∀ i ∈ n.svcs, i.s.tickOk = true) ∧ (∀ i ∈ n.apps, i.a.tickOk = true)
 
-/-- installs that do not configure `starting_health_state: FIXING` (a FIXING object without countdown) -/
-def Op.healthOk : Op → Prop
-  | .installSvc _ _ _ h _ => h ≠ .fixing
-  | .installApp _ _ _ h _ => h ≠ .fixing
-  | _ => True
-
 theorem wellTimed_deliver (n : Node) (op : Op) (h : WellTimed n) : WellTimed (n.deliverEvs op) := by
   constructor
   · intro i hi
@@ -1498,7 +1497,7 @@ theorem wellTimed_deliver (n : Node) (op : Op) (h : WellTimed n) : WellTimed (n.
 theorem wellTimed_of_heap_eq (n n' : Node) (h : WellTimed n) (h1 : n'.svcs = n.svcs) (h2 : n'.apps = n.apps) : WellTimed n' := by
   unfold WellTimed; rw [h1, h2]; exact h
 
-theorem wellTimed_installSvc (n n' : Node) (c cfg l hl f) (h : WellTimed n) (hh : hl ≠ .fixing)
+theorem wellTimed_installSvc (n n' : Node) (c cfg l hl f) (h : WellTimed n)
     (hi : n.installSvc c cfg l hl f = some n') : WellTimed n' := by
   obtain ⟨hs, ha, _⟩ := installSvc_heap n n' c cfg l hl f hi
   unfold WellTimed
@@ -1511,9 +1510,10 @@ theorem wellTimed_installSvc (n n' : Node) (c cfg l hl f) (h : WellTimed n) (hh 
     simp only [List.mem_append, List.mem_singleton] at hi
     rcases hi with hi | rfl
     · exact h.1 i hi
-    · cases hl <;> cases hon : n.isOn <;> simp_all [newSvc, Svc.start, Svc.tickOk, Soft.tickOk, Soft.goodIfUnused]
+    · cases hl <;> cases hon : n.isOn <;>
+        simp_all [newSvc, Soft.configured, Svc.start, Svc.tickOk, Soft.tickOk, Soft.goodIfUnused]
 
-theorem wellTimed_installApp (n n' : Node) (c cfg l hl f) (h : WellTimed n) (hh : hl ≠ .fixing)
+theorem wellTimed_installApp (n n' : Node) (c cfg l hl f) (h : WellTimed n)
     (hi : n.installApp c cfg l hl f = some n') : WellTimed n' := by
   obtain ⟨hs, ha, _⟩ := installApp_heap n n' c cfg l hl f hi
   unfold WellTimed
@@ -1528,21 +1528,21 @@ theorem wellTimed_installApp (n n' : Node) (c cfg l hl f) (h : WellTimed n) (hh 
     · exact h.2 i hi
     · apply app_tickOk_applyAll
       cases hl <;> cases n.isOn <;> cases c.ctorRuns <;>
-        simp_all [App.run, App.tickOk, Soft.tickOk, Soft.goodIfUnused]
+        simp_all [Soft.configured, App.run, App.tickOk, Soft.tickOk, Soft.goodIfUnused]
 
 /-- **Invariant:** no operation produces an object whose `apply_timestep` would raise. -/
-theorem C13_wellTimed_preserved (n : Node) (op : Op) (h : WellTimed n) (ho : Op.healthOk op) : WellTimed (n.step op).1 := by
+theorem C13_wellTimed_preserved (n : Node) (op : Op) (h : WellTimed n) : WellTimed (n.step op).1 := by
   cases op with
   | installSvc c cfg l hl f =>
     simp only [Node.step]
     cases hi : n.installSvc c cfg l hl f with
     | none => exact h
-    | some n' => exact wellTimed_installSvc n n' c cfg l hl f h ho hi
+    | some n' => exact wellTimed_installSvc n n' c cfg l hl f h hi
   | installApp c cfg l hl f =>
     simp only [Node.step]
     cases hi : n.installApp c cfg l hl f with
     | none => exact h
-    | some n' => exact wellTimed_installApp n n' c cfg l hl f h ho hi
+    | some n' => exact wellTimed_installApp n n' c cfg l hl f h hi
   | uninstall name =>
     simp only [Node.step]
     cases hu : n.uninstall name with
@@ -1570,7 +1570,7 @@ theorem C13_wellTimed_preserved (n : Node) (op : Op) (h : WellTimed n) (ho : Op.
           cases hi : n.installApp c false l .good 2 with
           | none => simp only [hi]; exact h
           | some n1 =>
-            have h1 := wellTimed_installApp n n1 c false l .good 2 h (by simp) hi
+            have h1 := wellTimed_installApp n n1 c false l .good 2 h hi
             simp only [hi]
             split
             · refine ⟨h1.1, ?_⟩
@@ -1638,26 +1638,28 @@ theorem wellTimed_tickAllOk (n : Node) (h : WellTimed n) : n.tickAllOk = true :=
   right
   exact ⟨fun i hi => Or.inr (svc_tickOk_applyAll _ _ (h.1 i hi)), fun i hi => Or.inr (app_tickOk_applyAll _ _ (h.2 i hi))⟩
 
-theorem wellTimed_run (ops : List Op) (n : Node) (h : WellTimed n) (ho : ∀ op ∈ ops, Op.healthOk op) : WellTimed (n.run ops) := by
+theorem wellTimed_run (ops : List Op) (n : Node) (h : WellTimed n) : WellTimed (n.run ops) := by
   induction ops generalizing n with
   | nil => exact h
-  | cons op ops ih =>
-    exact ih _ (C13_wellTimed_preserved n op h (ho op (by simp))) (fun o hm => ho o (by simp [hm]))
+  | cons op ops ih => exact ih _ (C13_wellTimed_preserved n op h)
 
 /-- **`Node.apply_timestep` never raises `TypeError`** after any sequence of operations from the empty node (every
-install, uninstall, request, API call, power event, earlier tick …), as long as no software is configured with
-`starting_health_state: FIXING`. -/
-theorem C13_tick_never_raises (ops : List Op) (n0 : Node) (h0 : n0.svcs = [] ∧ n0.apps = [])
-    (ho : ∀ op ∈ ops, Op.healthOk op) :
+install with any configured starting health — FIXING included, whose countdown the constructor now loads —, uninstall,
+request, API call, power event, earlier tick …).  No hypothesis on the operations. -/
+theorem C13_tick_never_raises (ops : List Op) (n0 : Node) (h0 : n0.svcs = [] ∧ n0.apps = []) :
     ((n0.run ops).step .tick).2 = .done := by
   have hw : WellTimed n0 := by
     unfold WellTimed; rw [h0.1, h0.2]; simp
-  have := wellTimed_tickAllOk _ (wellTimed_run ops n0 hw ho)
+  have := wellTimed_tickAllOk _ (wellTimed_run ops n0 hw)
   simp [Node.step, this]
 
-/-- the hypothesis is needed: an object configured FIXING has no countdown and the first tick raises -/
-theorem C13_tick_raises_on_configured_fixing :
-    ((({} : Node).registerSvc { name := "x", port := 1, proto := 1 } [] .fixing 2).step .tick).2 = .raised := by
+/-- software configured `starting_health_state: FIXING` with `fixing_duration` 2: the tick does not raise, and the fix
+completes (GOOD, `fixing_count` 1) with the second tick (before the constructor loaded the countdown, the first tick raised) -/
+theorem C13_configured_fixing_completes :
+    let n := ({} : Node).registerSvc { name := "x", port := 1, proto := 1 } [] .fixing 2
+    (n.step .tick).2 = .done ∧
+    ((n.run [.tick]).findSvc 0).map (fun i => (i.s.sw.actual, i.s.sw.fixCd)) = some (.fixing, some 1) ∧
+    ((n.run [.tick, .tick]).findSvc 0).map (fun i => (i.s.sw.actual, i.s.sw.fixCd, i.s.sw.fixCount)) = some (.good, none, 1) := by
   decide
 
 /-! ## 6. ports and payloads -/
@@ -1717,6 +1719,18 @@ theorem C13_payload_guard (n : Node) (port proto : Nat) (scan : Bool) (l : List 
     simp only [List.mem_map, Prod.mk.injEq] at hu
     obtain ⟨v, _, rfl, hh⟩ := hu
     simpa [Node.handles] using hh
+
+/-- **Delivering a payload never raises**, whatever is installed: a port-scan payload on a node without nmap is dropped
+(nobody receives it) — it used to dereference `software.get("nmap")` blindly. -/
+theorem C13_deliver_never_raises (n : Node) (port proto : Nat) (scan : Bool) :
+    ∃ l, n.deliverOut port proto scan = .recv l ∧
+      (scan = true → dget "nmap" n.software = none → l = []) := by
+  unfold Node.deliverOut Node.receivers
+  cases scan
+  · exact ⟨_, rfl, fun h => by cases h⟩
+  · cases hd : dget "nmap" n.software with
+    | none => exact ⟨[], by simp, fun _ _ => rfl⟩
+    | some u => exact ⟨[(u, n.handles u)], by simp, fun _ h => by cases h⟩
 
 /-- the same through `HostNode.receive_frame`: a frame's payload is handled only by RUNNING software on an ON node -/
 theorem C13_frame_payload_guard (n : Node) (hd : Hdr) (scan : Bool) (l : List (Nat × Bool))
